@@ -17,11 +17,12 @@
   "No input crashes the process" now HOLDS in the model: `no_request_crashes` (D11, a negative
   `numkeys` panicking inside `command.Parse`, has been repaired; witness `negative_numkeys_is_refused`:
   the request gets exactly one error reply).
-  The rest of the property as stated is FALSE for the real code, and the model reproduces it:
-    D12  `EXEC` announces `*n` and stops writing at the first queued command that fails
-                                    → `exec_reply_count_partial` (exact count of missing values),
-                                      witness `exec_reply_short`
-  Inside MULTI: `in_multi_one_reply` (everything but EXEC) and `exec_reply_count_partial`.
+  "Exactly one complete, well-formed reply", alone or inside a transaction block, HOLDS as well:
+  `one_reply` — for every connection state (idle or queuing, any queue), every table state and every request
+  inside the model's domain. D12 (`EXEC` announced `*n` and stopped writing at the first queued command that
+  failed) has been repaired: every queued command runs and writes its reply, the first error rolls the block
+  back (`exec_one_reply`; former witness `exec_reply_short`, now `exec_reply_complete`).
+  Inside MULTI: `in_multi_one_reply` (everything but EXEC) and `exec_one_reply`.
   `InModel` excludes only what the model makes no claim about: requests outside its numeric domain
   (`ood`, e.g. float formatting beyond 15 digits, LRANGE bounds near 2^63) and — vacuous for the
   generated tables — constructs the extractor did not recognise. `Covered` is every command: all 97
@@ -103,29 +104,50 @@ theorem in_multi_well_formed :
 
 /-! ### EXEC -/
 
-/-- **EXEC.** Inside MULTI, `EXEC` writes `*n` for the `n` queued commands and then the replies of
-the commands that ran. The number of announced values that never arrive is exactly
-`n - (number of commands that ran)`; when no queued command fails the reply is complete. -/
-theorem exec_reply_count_partial :
+/-- **EXEC.** Inside MULTI, `EXEC` writes `*n` for the `n` queued commands and then one complete value per
+queued command — all `n` of them, whether or not one fails (D12, repaired): its reply is exactly one complete
+RESP value. -/
+theorem exec_one_reply :
     ∀ (st : ConnState) (db : DB) (now : Int) (req : List Bytes) (pc : ParsedCmd),
       st.inMulti = true → parse req = .ok pc → pc.name = asciiBytes "exec" →
       (handleX st db now req []).ood = false →
-      owed (handle st db now req).2.2 1
-        = some (st.cmds.length - (runQueue st.cmds now db [] 1).segs.length) ∧
-      ((runQueue st.cmds now db [] 1).failed = false → wellFormedOne (handle st db now req).2.2) :=
+      owed (handle st db now req).2.2 1 = some 0 ∧
+      (runQueue st.cmds now db [] 1).segs.length = st.cmds.length ∧
+      wellFormedOne (handle st db now req).2.2 :=
   exec_owed
 
-/-- the loop of `handleMulti` on its own: one complete value per command that ran -/
+/-- the loop of `handleMulti` on its own: one complete value per queued command, failing ones included -/
 theorem exec_queue_values :
     ∀ (cmds : List ParsedCmd) (now : Int) (db : DB) (obs : List Token) (pos : Nat),
-      (runQueue cmds now db obs pos).ood = false → (runQueue cmds now db obs pos).failed = false →
+      (runQueue cmds now db obs pos).ood = false →
       WellFormed cmds.length ((runQueue cmds now db obs pos).segs.flatMap (·.toks)) := by
-  intro cmds now db obs pos ho hf
+  intro cmds now db obs pos ho
   have h := runQueue_owed cmds now db obs pos 0 ho
   unfold WellFormed
-  have := h.2.1
-  rw [h.2.2 hf] at this
-  simpa using this
+  simpa using h.2
+
+/-- **One reply per request — alone or inside a transaction block.** For every connection state (idle or
+queuing, whatever is queued), every table state, every clock value and every request inside the model's
+domain, the handler chain writes exactly one complete value. -/
+theorem one_reply :
+    ∀ (st : ConnState) (db : DB) (now : Int) (req : List Bytes),
+      InModel (handleX st db now req []) → wellFormedOne (handle st db now req).2.2 := by
+  intro st db now req hin
+  cases hm : st.inMulti with
+  | false => exact handle_one_reply st db now req hm hin
+  | true =>
+    cases hp : parse req with
+    | error e => exact (parse_error_one_reply st db now req e hp).2.2
+    | panic => exact absurd hp (parse_ne_panic req)
+    | outOfDomain => simp [InModel, handleX, hp] at hin
+    | unsupported t => simp [InModel, handleX, hp] at hin
+    | ok pc =>
+      cases hn : isName pc.name "exec" with
+      | false => exact (handle_in_multi_one_reply st db now req pc hm hp hn).1
+      | true =>
+        have hname : pc.name = asciiBytes "exec" := by
+          simpa [isName] using hn
+        exact (exec_owed st db now req pc hm hp hname hin.1).2.2
 
 /-! ### from tokens to bytes (C17) -/
 
@@ -178,18 +200,21 @@ theorem negative_numkeys_is_refused :
 example : handle { inMulti := true } db0 2000 [b "ZUNIONSTORE", b "d", b "-1", b "k1"]
     = ({ inMulti := true }, db0, [.err (b "ERR wrong number of arguments ()")]) := by decide +kernel
 
-/-- D12: `MULTI; INCR k2 (a list); INCR k1; EXEC` announces two values and writes one -/
-theorem exec_reply_short :
-    (handle { inMulti := true, cmds := queued [[b "INCR", b "k2"], [b "INCR", b "k1"]] } db0 2000 [b "EXEC"]).2.2
-      = [.arrayHdr 2, .err (b "key type mismatch (incr)")] ∧
+/-- D12 repaired: `MULTI; INCR k2 (a list); INCR k1; EXEC` announces two values and writes two — the error of
+the first command and the reply of the second (whose effect is rolled back with the block) -/
+theorem exec_reply_complete :
+    (handle { inMulti := true, cmds := queued [[b "INCR", b "k2"], [b "INCR", b "k1"]] } db0 2000 [b "EXEC"])
+      = ({}, db0, [.arrayHdr 2, .err (b "key type mismatch (incr)"), .int 8]) ∧
+    wellFormedOne [.arrayHdr 2, .err (b "key type mismatch (incr)"), .int 8] ∧
+    -- what the reply used to be: one value short
     ¬ wellFormedOne [.arrayHdr 2, .err (b "key type mismatch (incr)")] ∧
     owed [.arrayHdr 2, .err (b "key type mismatch (incr)")] 1 = some 1 := by
   decide +kernel
 
-/-- a failure of the LAST queued command leaves a complete reply: the count is exact, not a bound -/
+/-- `one_reply` instantiated inside a block with a failing command -/
 example :
-    wellFormedOne (handle { inMulti := true, cmds := queued [[b "INCR", b "k1"], [b "INCR", b "k2"]] } db0 2000
-      [b "EXEC"]).2.2 := by decide +kernel
+    wellFormedOne (handle { inMulti := true, cmds := queued [[b "INCR", b "k2"], [b "INCR", b "k1"]] } db0 2000
+      [b "EXEC"]).2.2 := one_reply _ _ _ _ (by unfold InModel; decide +kernel)
 
 /-- a block without failure -/
 example :
